@@ -40,6 +40,12 @@ func (*requestCodec) HandleRead(ctx netty.InboundContext, message netty.Message)
 			// TODO: replace request context by the channel context
 			//
 			ctx.HandleRead(request)
+			// the handler may have left (part of) the body unread: skip it,
+			// the next request starts behind it
+			if nil != request.Body {
+				_, _ = io.Copy(io.Discard, request.Body)
+				_ = request.Body.Close()
+			}
 			// Close indicates whether to close the connection after
 			// replying to this request
 			if request.Close {
